@@ -350,6 +350,14 @@ func init() {
 			})
 		}
 	}
+	reg("net/netip.AddrFromSlice", "ok exactly for slices of 4 or 16 bytes; the address value itself is opaque", func(ex *Exec, st *State, c *ast.CallExpr, r *Value, a []Value) []Value {
+		sig := ex.info().TypeOf(c.Fun).(*types.Signature)
+		av := freshValue("addr", sig.Results().At(0).Type())
+		st.assumeValid(av)
+		n := a[0].L[".len"]
+		ok := mkOr(mkEq(n, mkInt(sortInt, 4)), mkEq(n, mkInt(sortInt, 16)))
+		return []Value{av, boolV(ok)}
+	})
 	// ---- byte streams: arbitrary data from the peer ----
 	{
 		mb := reg("encoding/binary.Read", "fills *data (fixed-size value or the elements of a slice) with arbitrary bytes from the stream, error arbitrary; ghost lastreadof(T) = the value read into a target of type T", func(ex *Exec, st *State, c *ast.CallExpr, r *Value, a []Value) []Value {
